@@ -13,7 +13,7 @@ import (
 )
 
 func init() {
-	register(ruleDef{ID: "R3.1", Prop: "C03", Tier: "quick", Floor: 15,
+	register(ruleDef{ID: "R3.1", Prop: "C03", Tier: "quick", Floor: 10,
 		Title: "gob writer/reader agreement: for every type with GobEncode and GobDecode the ordered types passed to Encode equal those passed to Decode (decoder may have a tolerant tail for legacy data)",
 		Fn:    ruleR3_1})
 	register(ruleDef{ID: "R3.3", Prop: "C03", Tier: "quick", Floor: 10,
